@@ -72,9 +72,9 @@ func randStyle(r *rand.Rand, pool *[]vaxis.Style) vaxis.Style {
 		s.Attribute = vaxis.AttributeMask(1 << uint(1+r.Intn(7)))
 	}
 	if r.Intn(5) == 0 {
-		s.Hyperlink = []string{"http://a", "http://b"}[r.Intn(2)]
+		s.Hyperlink = []string{"http://a", "http://b", "https://e.org/d;v=2/p;rev=7?x=1", "x:;;y"}[r.Intn(4)]
 		if r.Intn(2) == 0 {
-			s.HyperlinkParams = "id=1"
+			s.HyperlinkParams = []string{"id=1", "id=a:b=c"}[r.Intn(2)]
 		}
 	}
 	if len(*pool) < 6 {
@@ -149,6 +149,7 @@ func main() {
 		var fterms []string
 		var fjson []interface{}
 		nf := 1 + r.Intn(maxFrames)
+		haveCursor, curCol, curRow := false, 0, 0
 		for f := 0; f < nf; f++ {
 			win := vx.Window()
 			var ops, opsJ []string
@@ -156,8 +157,16 @@ func main() {
 			if f == 0 {
 				nops += 3
 			}
+			idle := f > 0 && haveCursor && r.Intn(6) == 0
+			if idle {
+				nops = r.Intn(2) // an idle frame: at most the cursor's shape changes
+			}
 			for k := 0; k < nops; k++ {
-				switch r.Intn(10) {
+				sel := r.Intn(10)
+				if idle {
+					sel = 2
+				}
+				switch sel {
 				case 0:
 					st := randStyle(r, &pool)
 					col, row := r.Intn(cols), r.Intn(rows)
@@ -171,6 +180,10 @@ func main() {
 					opsJ = append(opsJ, "Fill")
 				case 2:
 					col, row, st := r.Intn(cols), r.Intn(rows), r.Intn(7)
+					if idle || (haveCursor && r.Intn(4) == 0) {
+						col, row = curCol, curRow
+					}
+					haveCursor, curCol, curRow = true, col, row
 					vx.ShowCursor(col, row, vaxis.CursorStyle(st))
 					ops = append(ops, fmt.Sprintf("OShowCursor %d %d %d", col, row, st))
 					opsJ = append(opsJ, fmt.Sprintf("ShowCursor(%d,%d,%d)", col, row, st))
